@@ -60,7 +60,10 @@ AddStep(s) ==
   /\ steps' = Append(steps, s)
   /\ cfg' = [cfg EXCEPT ![s.param] = s.val]
   /\ UNCHANGED kind
-CfgNext == \E p \in Params : \E f \in Forms : \E v \in {0, 1, 2, 3} : AddStep([param |-> p, form |-> f, val |-> v])
+\* function settings exist in a Result style and an Any style ("r" / "a"); which one is used must not matter
+StyleOK(k, s) == IF s.param \in {"prep", "exec", "post"} /\ (k = "node" \/ s.param = "exec") THEN s.sty \in {"r", "a"} ELSE s.sty = "r"
+CfgNext == \E p \in Params : \E f \in Forms : \E v \in {0, 1, 2, 3} : \E y \in {"r", "a"} :
+              StyleOK(kind, [param |-> p, sty |-> y]) /\ AddStep([param |-> p, form |-> f, val |-> v, sty |-> y])
 CfgSpec == CfgInit /\ [][CfgNext]_cvars
 
 \* stepwise application and the "last setting wins" definition agree; unrelated parameters are untouched
@@ -78,7 +81,7 @@ ExportSeq == Len(steps) = MaxSteps => PrintT("SCN " \o ToJson([kind |-> kind, st
 (* verdict on a recorded configuration scenario                            *)
 (*   h = << cfgstep events ..., probe event >>                             *)
 (* ---------------------------------------------------------------------- *)
-StepsOf(h) == LET s == SelectSeq(h, LAMBDA e : e.ev = "cfgstep") IN [i \in 1..Len(s) |-> [param |-> s[i].param, form |-> s[i].form, val |-> s[i].val]]
+StepsOf(h) == LET s == SelectSeq(h, LAMBDA e : e.ev = "cfgstep") IN [i \in 1..Len(s) |-> [param |-> s[i].param, form |-> s[i].form, val |-> s[i].val, sty |-> s[i].sty]]
 
 \* a pool size <= 0 means one worker: every task runs, exactly max(size, 1) of them at a time
 PoolSizeOK(e) == LET eff == IF e.size <= 0 THEN 1 ELSE e.size IN ~e.hung /\ e.ran = e.tasks /\ e.hwm = eff
